@@ -9,6 +9,7 @@ package datastore
 import (
 	"context"
 	"fmt"
+	"strings"
 	"sync"
 	"testing"
 
@@ -179,6 +180,140 @@ func TestVerifReplayIntents(t *testing.T) {
 	}
 	try("nil update in the list", &sdcpb.TransactionIntent{Intent: "i", Priority: 5, Update: []*sdcpb.Update{nil}})
 	try("no updates, delete flag", &sdcpb.TransactionIntent{Intent: "i", Priority: 5, Delete: true})
+	for _, fn := range fns {
+		fmt.Printf("REPLAY-CASES fn=%s n=%d\n", fn, n)
+	}
+}
+
+// TestVerifReplayExpandPaths (C11): the keys of a list entry reach the expanded paths whichever way the request gives
+// them: all in the path, all in the JSON value, or split between the two. Every expanded path names the entry by all
+// of its keys, and entries that differ in one key value never share a path.
+func TestVerifReplayExpandPaths(t *testing.T) {
+	fns := []string{"(*utils.Converter).ExpandContainerValue", "(*utils.Converter).ExpandUpdate"}
+	ctx := context.Background()
+	scl, schema, err := testhelper.InitSDCIOSchema()
+	if err != nil {
+		t.Fatal(err)
+	}
+	conv := utils.NewConverter(schemaClient.NewSchemaClientBound(schema.GetSchema(), scl))
+	n := 0
+	type shape struct {
+		name string
+		path func(k1, k2 string) *sdcpb.Path
+		js   func(k1, k2 string) string
+	}
+	dk := func(keys map[string]string) *sdcpb.Path {
+		return &sdcpb.Path{Elem: []*sdcpb.PathElem{{Name: "doublekey", Key: keys}}}
+	}
+	shapes := []shape{
+		{"both keys in the path", func(k1, k2 string) *sdcpb.Path { return dk(map[string]string{"key1": k1, "key2": k2}) }, func(k1, k2 string) string { return `{"mandato":"x"}` }},
+		{"both keys in the path and in the value", func(k1, k2 string) *sdcpb.Path { return dk(map[string]string{"key1": k1, "key2": k2}) }, func(k1, k2 string) string {
+			return fmt.Sprintf(`{"key1":%q,"key2":%q,"mandato":"x"}`, k1, k2)
+		}},
+		{"both keys in the value", func(k1, k2 string) *sdcpb.Path { return dk(nil) }, func(k1, k2 string) string {
+			return fmt.Sprintf(`{"key1":%q,"key2":%q,"mandato":"x"}`, k1, k2)
+		}},
+		{"entries as an array at the root", func(k1, k2 string) *sdcpb.Path { return &sdcpb.Path{} }, func(k1, k2 string) string {
+			return fmt.Sprintf(`{"doublekey":[{"key1":%q,"key2":%q,"mandato":"x"}]}`, k1, k2)
+		}},
+		{"first key in the path, second in the value", func(k1, k2 string) *sdcpb.Path { return dk(map[string]string{"key1": k1}) }, func(k1, k2 string) string {
+			return fmt.Sprintf(`{"key2":%q,"mandato":"x"}`, k2)
+		}},
+		{"second key in the path, first in the value", func(k1, k2 string) *sdcpb.Path { return dk(map[string]string{"key2": k2}) }, func(k1, k2 string) string {
+			return fmt.Sprintf(`{"key1":%q,"mandato":"x"}`, k1)
+		}},
+	}
+	entries := [][2]string{{"one", "k2"}, {"two", "k2"}, {"k1", "one"}, {"k1", "two"}, {"k2", "k1"}}
+	for _, keysAsLeaf := range []bool{false, true} {
+		for _, sh := range shapes {
+			seen := map[string]string{}
+			for _, e := range entries {
+				n++
+				in := fmt.Sprintf("list doublekey, %s, keysAsLeaf=%v, entry key1=%s key2=%s", sh.name, keysAsLeaf, e[0], e[1])
+				var upds []*sdcpb.Update
+				var err error
+				func() {
+					defer func() {
+						if r := recover(); r != nil {
+							err = fmt.Errorf("panic: %v", r)
+							for _, fn := range fns {
+								fmt.Printf("REPLAY-FAIL fn=%s clause=panic input=%s panic=%v\n", fn, in, r)
+							}
+						}
+					}()
+					upds, err = conv.ExpandUpdate(ctx, &sdcpb.Update{Path: sh.path(e[0], e[1]), Value: &sdcpb.TypedValue{Value: &sdcpb.TypedValue_JsonVal{JsonVal: []byte(sh.js(e[0], e[1]))}}}, keysAsLeaf)
+				}()
+				if err != nil && strings.HasPrefix(sh.name, "both keys in the path and in the value") && !strings.HasPrefix(err.Error(), "panic") {
+					// a key given twice is refused: an answer, not a wrong path
+					continue
+				}
+				if err != nil {
+					for _, fn := range fns {
+						fmt.Printf("REPLAY-FAIL fn=%s clause=every_key_reaches_the_expanded_path input=%s why=error %v\n", fn, in, err)
+					}
+					continue
+				}
+				want := fmt.Sprintf("doublekey[key1=%s][key2=%s]/", e[0], e[1])
+				var got []string
+				bad := false
+				for _, u := range upds {
+					xp := utils.ToXPath(u.GetPath(), false)
+					got = append(got, xp)
+					if !strings.HasPrefix(xp, want) {
+						bad = true
+					}
+					if other, dup := seen[xp]; dup && other != e[0]+","+e[1] {
+						for _, fn := range fns {
+							fmt.Printf("REPLAY-FAIL fn=%s clause=different_entries_never_share_a_path input=%s why=path %s is also the path of entry %s\n", fn, in, xp, other)
+						}
+					}
+					seen[xp] = e[0] + "," + e[1]
+				}
+				hasLeaf := false
+				for _, g := range got {
+					if g == want+"mandato" {
+						hasLeaf = true
+					}
+				}
+				if bad || !hasLeaf {
+					for _, fn := range fns {
+						fmt.Printf("REPLAY-FAIL fn=%s clause=every_key_reaches_the_expanded_path input=%s why=expanded to %v, expected every path below %s\n", fn, in, got, want)
+					}
+				}
+			}
+		}
+	}
+	// an empty object addressed to a presence container is the container itself, as it is one level up
+	for _, c := range []struct {
+		name string
+		path *sdcpb.Path
+		js   string
+	}{
+		{"update on /choices/case2 with {}", &sdcpb.Path{Elem: []*sdcpb.PathElem{{Name: "choices"}, {Name: "case2"}}}, `{}`},
+		{"update on /choices with {\"case2\":{}}", &sdcpb.Path{Elem: []*sdcpb.PathElem{{Name: "choices"}}}, `{"case2":{}}`},
+		{"update on the root with {\"choices\":{\"case2\":{}}}", &sdcpb.Path{}, `{"choices":{"case2":{}}}`},
+	} {
+		for _, ietf := range []bool{false, true} {
+			n++
+			v := &sdcpb.TypedValue{Value: &sdcpb.TypedValue_JsonVal{JsonVal: []byte(c.js)}}
+			if ietf {
+				v = &sdcpb.TypedValue{Value: &sdcpb.TypedValue_JsonIetfVal{JsonIetfVal: []byte(c.js)}}
+			}
+			in := fmt.Sprintf("%s, json_ietf=%v", c.name, ietf)
+			upds, err := conv.ExpandUpdate(ctx, &sdcpb.Update{Path: c.path, Value: v}, true)
+			found := false
+			for _, u := range upds {
+				if _, isEmpty := u.GetValue().GetValue().(*sdcpb.TypedValue_EmptyVal); isEmpty && utils.ToXPath(u.GetPath(), false) == "choices/case2" {
+					found = true
+				}
+			}
+			if err != nil || !found || len(upds) != 1 {
+				for _, fn := range fns {
+					fmt.Printf("REPLAY-FAIL fn=%s clause=an_empty_object_on_a_presence_container_is_the_container input=%s why=expanded to %d update(s) (err %v), expected the one update choices/case2 = empty: the request is accepted and nothing is stored for it\n", fn, in, len(upds), err)
+				}
+			}
+		}
+	}
 	for _, fn := range fns {
 		fmt.Printf("REPLAY-CASES fn=%s n=%d\n", fn, n)
 	}
